@@ -400,7 +400,7 @@ impl Display for Command {
             Self::Compound(compound_command, redirect_list) => {
                 write!(f, "{compound_command}")?;
                 if let Some(redirect_list) = redirect_list {
-                    write!(f, "{redirect_list}")?;
+                    write!(f, " {redirect_list}")?;
                 }
                 Ok(())
             }
@@ -1055,7 +1055,7 @@ impl Display for FunctionBody {
     fn fmt(&self, f: &mut std::fmt::Formatter<'_>) -> std::fmt::Result {
         write!(f, "{}", self.0)?;
         if let Some(redirect_list) = &self.1 {
-            write!(f, "{redirect_list}")?;
+            write!(f, " {redirect_list}")?;
         }
 
         Ok(())
@@ -1492,7 +1492,10 @@ impl SourceLocation for RedirectList {
 
 impl Display for RedirectList {
     fn fmt(&self, f: &mut std::fmt::Formatter<'_>) -> std::fmt::Result {
-        for item in &self.0 {
+        for (i, item) in self.0.iter().enumerate() {
+            if i > 0 {
+                write!(f, " ")?;
+            }
             write!(f, "{item}")?;
         }
         Ok(())
